@@ -10,7 +10,7 @@ git -C /repo worktree add -q --detach $wt HEAD || exit 2
 git -C $wt apply "$patch" || { echo "patch does not apply"; git -C /repo worktree remove --force $wt; exit 2; }
 for p in "$@"; do
   echo "=== $p with $(basename $(dirname $patch)) ($(basename $(dirname $(dirname $patch))))"
-  VERIF_REPO=$wt ./check "$p" --tier quick 2>&1 | grep -v "^KNOWN-FINDING" | grep -A1 "^VIOLATION\|^$p \|INFRA\|Traceback" | cut -c1-400 | head -12
+  VERIF_REPO=$wt ./check "$p" --tier ${TIER:-quick} 2>&1 | grep -v "^KNOWN-FINDING" | grep -A1 "^VIOLATION\|^$p \|INFRA\|Traceback" | cut -c1-400 | head -12
 done
 git -C /repo worktree remove --force $wt
 /venv/bin/python harness/extract/generate.py  # tables back to /repo
